@@ -46,11 +46,12 @@ fn parts_for(prop: &str, tier: Tier) -> Vec<Box<dyn explore::Harness>> {
         // (cheap parts first: each part gets an equal share of the wall cap that is LEFT)
         "C02" => vec![
             // wake-ups of the shipped in-memory transports (two-way histories, both ends)
-            Box::new(codec::ChanHarness { cfgs: codec::chan_configs(if tier == Tier::Thorough { 8 } else { 6 }) }),
+            Box::new(codec::ChanHarness { cfgs: codec::chan_configs(if tier == Tier::Thorough { 8 } else { 5 }) }),
             Box::new(burst::BurstHarness { prop: "C02", cfgs: burst::configs_many(burst::Side::ClientManyCalls, tier == Tier::Thorough) }),
             hc(chain_props::HProp::C02),
-            s(SProp::C02),
             c(CProp::C02),
+            // (the largest part last: it gets all the time that is left)
+            s(SProp::C02),
         ],
         "C03" => vec![c(CProp::C03)],
         "C04" => vec![
@@ -63,6 +64,8 @@ fn parts_for(prop: &str, tier: Tier) -> Vec<Box<dyn explore::Harness>> {
         "C05" => vec![c(CProp::C05)],
         "C06" => vec![
             Box::new(burst::BurstHarness { prop: "C06", cfgs: burst::configs_many(burst::Side::ServerManyExpire, tier == Tier::Thorough) }),
+            // the same count, the server run as the examples run it (spawn_incoming, real tokio tasks)
+            Box::new(burst::BurstHarness { prop: "C06", cfgs: burst::configs_many(burst::Side::SpawnedServerExpire, tier == Tier::Thorough) }),
             s(SProp::C06),
         ],
         "C08" => vec![
@@ -78,7 +81,13 @@ fn parts_for(prop: &str, tier: Tier) -> Vec<Box<dyn explore::Harness>> {
             s(SProp::C11),
         ],
         "C12" => vec![s(SProp::C12)],
-        "C14" => vec![c(CProp::C14), s(SProp::C14)],
+        "C14" => vec![
+            // the client as the examples run it (spawned tasks, tokio's cooperative budget): nothing is
+            // written once the transport has failed a flush, however many calls were queued
+            Box::new(burst::BurstHarness { prop: "C14", cfgs: burst::configs_many(burst::Side::SpawnedClientFlushFault, tier == Tier::Thorough) }),
+            c(CProp::C14),
+            s(SProp::C14),
+        ],
         "C18" => vec![c(CProp::C18), hc(chain_props::HProp::C18)],
         _ => vec![],
     }
